@@ -61,6 +61,11 @@ CHECKS.update({
              text="Generated-input search: exact file set with package paths, classdef base/pointer property/constructor/delete/method/static/accessor inventory, enumerator numbering, collectors/clean-up/RTTI in the MEX preamble.",
              note="Trusted: vlib.matscan, vlib.refmat.expected_toolbox. Templated base classes are excluded while F-29 (golden-pinned) is open.", ref="3/C10"),
 })
+CHECKS.update({
+ 'C18': dict(tech="Hypothesis-generated values, array shapes and handle operation sequences driving the unmodified matlab.h (compiled against a mock MEX runtime) through ctypes; round-trip, error-instead-of-value and model-based ownership oracles; each case isolated in a forked child so crashes are findings",
+             text="Generated-input search on the real header: 5k (quick) / 190k (thorough) cases over scalar extremes, strings, vectors, matrices (shape and element positions), rejection of non-scalars / non-double arrays, and wrap/unwrap/release histories against a model of owners and handles.",
+             note="Trusted: vlib/mexmock (mock MEX API written from MathWorks' documented semantics, stand-in gtsam containers), the shim c18_shim.cpp. Rebuilt whenever /repo/matlab.h changes.", ref="3/C18"),
+})
 PENDING = {}
 
 def main():
